@@ -24,6 +24,9 @@ import threading
 import time as _time
 import warnings
 from fractions import Fraction
+import os
+
+import uberjob
 
 import uberjob.progress._console_progress_observer as con_mod
 import uberjob.progress._html_progress_observer as html_mod
@@ -972,6 +975,91 @@ def probe_boundaries():
 # explore / replay / search
 # ----------------------------------------------------------------------------------------------
 
+def public_factory_cases(only=None):
+    """The bundled displays as a USER gets them: `uberjob.run` with `progress=` left out (the default display), with
+    `console_progress`, `html_progress(path)`, `html_progress(callable)` and a composite of two — on a small plan with two
+    scopes, with and without a failing call.  What ends up on the terminal / in the file after `run` returned must show the
+    final counts of every scope (nothing about layout is assumed beyond `<completed> / <total>` and the scope's name)."""
+    import tempfile
+    import uberjob.progress as up
+    viol, done = [], 0
+    for fail in (False, True):
+        for mode in ("default", "console", "html-path", "html-callable", "composite"):
+            if only and (mode, fail) != tuple(only):
+                continue
+            with tempfile.TemporaryDirectory() as d:
+                plan = uberjob.Plan()
+
+                def fa(x):
+                    return x + 1
+
+                def fb(x, y):
+                    if fail and x == 2:
+                        raise ValueError("boom")
+                    return x * y
+
+                with plan.scope("A"):
+                    a = [plan.call(fa, i) for i in range(3)]
+                with plan.scope("B"):
+                    b = [plan.call(fb, a[i], a[i + 1]) for i in range(2)]
+                chunks = []
+                path = os.path.join(d, "progress.html")
+                kw = {}
+                if mode == "console":
+                    kw["progress"] = up.console_progress
+                elif mode == "html-path":
+                    kw["progress"] = up.html_progress(path)
+                elif mode == "html-callable":
+                    kw["progress"] = up.html_progress(chunks.append)
+                elif mode == "composite":
+                    kw["progress"] = up.composite_progress(up.console_progress, up.html_progress(path))
+                buf = io.StringIO()
+                exc = None
+                with warnings.catch_warnings():
+                    warnings.simplefilter("ignore")
+                    with contextlib.redirect_stdout(buf), contextlib.redirect_stderr(buf):
+                        try:
+                            uberjob.run(plan, output=b, max_errors=None, **kw)
+                        except uberjob.CallError as e:
+                            exc = e
+                        except BaseException as e:      # noqa: BLE001
+                            viol.append({"property": PROP, "kind": "factory", "case": [mode, fail],
+                                         "what": f"run with the {mode} display raised {type(e).__name__}: {e}"})
+                            continue
+                done += 1
+                if fail != (exc is not None):
+                    viol.append({"property": PROP, "kind": "factory", "case": [mode, fail],
+                                 "what": f"run with the {mode} display: outcome {exc!r}, a call {'fails' if fail else 'does not fail'}"})
+                    continue
+                texts = []
+                if mode in ("default", "console", "composite"):
+                    texts.append(("terminal", buf.getvalue()))
+                if mode in ("html-path", "composite"):
+                    texts.append(("file", open(path, encoding="utf-8").read() if os.path.exists(path) else None))
+                if mode == "html-callable":
+                    texts.append(("callable", chunks[-1].decode("utf-8") if chunks else None))
+                # final counts: scope A 3 of 3; scope B: without the failure 2 of 2, with it 1 completed, 1 failed of 2
+                want = [("A", "3 / 3"), ("B", "1 / 2" if fail else "2 / 2")]
+                for where, txt in texts:
+                    if mode == "default" and (not txt or "uberjob, elapsed" not in txt):
+                        continue        # which display (if any) is the default is not the property's business
+                    if not txt:
+                        viol.append({"property": PROP, "kind": "factory", "case": [mode, fail],
+                                     "what": f"{mode} display: nothing was emitted to the {where} by the time run returned"})
+                        continue
+                    tail = txt[txt.rfind("uberjob, elapsed"):] if where == "terminal" and "uberjob, elapsed" in txt else txt
+                    for scope, counts in want:
+                        if counts not in tail or scope not in tail:
+                            viol.append({"property": PROP, "kind": "factory", "case": [mode, fail],
+                                         "what": f"{mode} display: the last rendering on the {where} does not show the final counts "
+                                                 f"{counts!r} of scope {scope!r}: ...{tail[-300:]!r}"})
+                            break
+                    if fail and "1 failed" not in tail:
+                        viol.append({"property": PROP, "kind": "factory", "case": [mode, fail],
+                                     "what": f"{mode} display: the last rendering on the {where} does not show the failed call"})
+    return viol, done
+
+
 def _violation(what, kind, seq, mode):
     return {"property": PROP, "what": what, "kind": "sequence", "observer": kind, "mode": mode, "seq": seq}
 
@@ -1046,6 +1134,10 @@ def explore(ctx, n_scale=1.0, monitors_only=False):
                 violations.append(_violation(v, kind, seq, "threaded"))
                 break
     cov["threaded_runs"] = thr
+    if not violations:
+        v, n_fac = public_factory_cases()
+        violations += v[:2]
+        cov["public_factory_runs"] = n_fac
     # (e)
     d, st = diff_legal(ctx if not monitors_only else type("C", (), {"driver": None})(), rng, seqs[: (40 if quick else 400)], 3)
     disagreements += d
@@ -1067,6 +1159,9 @@ def replay(ctx, payload):
     if w.get("kind") == "sort":
         _, real = sort_case(w["items"], True)
         return "sorted_scope_items raises TypeError" if real == "raise" else None
+    if w.get("kind") == "factory":
+        v, _ = public_factory_cases(only=w["case"])
+        return v[0]["what"] if v else None
     if w.get("kind") == "sequence":
         seq, kind = w["seq"], w["observer"]
         if w.get("mode") == "threaded":
